@@ -133,6 +133,17 @@ def cascade(ctx, R):
     sv = b.find_calls('trackers::sort::voting::SortVoting::new')
     n += 1
     ok = len(sv) == 1 and eb.arg(sv[0], 0).strip().fields[-1:] == ('positional_threshold',)
+    if not sv:
+        # the engine built through a (spliced) sibling constructor: one SortVoting literal whose threshold reads the
+        # configured positional threshold, handed to the positional winners() call
+        lits = []
+        for i_ in sorted(b.live_blocks()):
+            for si_, s_ in enumerate(b.blocks[i_]['st']):
+                rv_ = s_.get('rv') or {}
+                if s_['k'] == 'assign' and rv_.get('k') == 'agg' and rv_.get('ak') == 'adt' and \
+                        str(rv_.get('adt', '')).endswith('sort::voting::SortVoting') and 'threshold' in rv_.get('fields', []):
+                    lits.append(eb.operand(rv_['ops'][rv_['fields'].index('threshold')], at=(i_, si_)))
+        ok = len(lits) == 1 and lits[0].has_field('positional_threshold')
     ctx.check(ok, R, b, 'positional-stage=Hungarian(positional_threshold)', '',
               'the positional stage is not SortVoting::new(positional_threshold, ..)')
     # closures
